@@ -191,6 +191,17 @@ pub broadcast axiom fn axiom_ascii_not_alphanumeric(c: char)
     ensures ((c as u32) < 128 && !('0' <= c <= '9' || 'a' <= c <= 'z' || 'A' <= c <= 'Z')) ==> !(#[trigger] char_is_alphanumeric(c));
 pub broadcast group axiom_ascii_char_classes { axiom_ascii_numeric, axiom_ascii_alphanumeric }
 
+// ASCII classification (core::char: exact, table-defined) - here so that a change which starts using them is judged by
+// the contracts instead of stopping at "no specification"
+pub assume_specification[ char::is_ascii_whitespace ](c: &char) -> (r: bool)
+    ensures r == (*c == ' ' || *c == '\t' || *c == '\n' || *c == '\x0C' || *c == '\r');
+pub assume_specification[ char::is_ascii_digit ](c: &char) -> (r: bool)
+    ensures r == ('0' <= *c <= '9');
+pub assume_specification[ char::is_ascii_alphabetic ](c: &char) -> (r: bool)
+    ensures r == ('a' <= *c <= 'z' || 'A' <= *c <= 'Z');
+pub assume_specification[ char::is_ascii_alphanumeric ](c: &char) -> (r: bool)
+    ensures r == ('0' <= *c <= '9' || 'a' <= *c <= 'z' || 'A' <= *c <= 'Z');
+
 #[verifier::external_body]
 pub fn chars_to_string(v: Vec<char>) -> (r: String)
     ensures r@ == v@,
